@@ -119,6 +119,11 @@ def build_input(case):
         k2 = {d: kinds[d] for d in S}
         k2["x"] = "int"
         w = build_da(S + ["x"], k2, list(range(len(S) + 1)), 20000, "none", "w")
+        if case.get("item_order") == "reversed":
+            # the same labelled samples, stored in another element order by the second item
+            w = w.isel({S[0]: slice(None, None, -1)})
+        elif case.get("item_order") == "rolled":
+            w = w.isel({S[0]: np.roll(np.arange(w.sizes[S[0]]), 1)})
         return [u, w], S
     if c == "list_mixed":
         u = build_da(dims, kinds, order, 0, extra, "u")
@@ -167,7 +172,7 @@ def cases(tier, seed):
     out = []
 
     def add(group, **kw):
-        c = dict(level="preprocessor", group=group, container="da", ns=1, nf=1, order=None, kinds=None, coords="none", names="default", flags=[False, False, False, False])
+        c = dict(level="preprocessor", group=group, container="da", ns=1, nf=1, order=None, kinds=None, coords="none", names="default", flags=[False, False, False, False], item_order="same")
         c.update(kw)
         nd = c["ns"] + c["nf"]
         if c["order"] is None:
@@ -206,6 +211,12 @@ def cases(tier, seed):
                 for d in dims:
                     for k in allowed(d)[1:]:
                         add("index", container=cont, ns=ns, nf=nf, kinds=[[x, k if x == d else "int"] for x in dims])
+    # A2: list items that store the shared sample labels in a different element order
+    for ns, nf in ((1, 1), (1, 2), (2, 1)):
+        for io in ("reversed", "rolled"):
+            for kind0 in ("int", "str", "datetime_desc"):
+                kk = [[d, kind0 if d == "time" else "int"] for d in SDIMS[:ns] + FDIMS[:nf]]
+                add("list_order", container="list_da", ns=ns, nf=nf, item_order=io, kinds=kk)
     # C: extra coordinates x internal names
     for cont in CONTAINERS:
         for ns, nf in ((1, 1), (1, 2), (2, 1), (2, 2)):
@@ -463,6 +474,8 @@ def _exc_text(e):
 def run_case(case, seed):
     V = []
     feats = dict(container=case["container"], group=case["group"], mi=any(k == "mi" for _, k in case["kinds"]), names=case["names"], coords=case["coords"])
+    if case["group"] == "list_order":
+        feats["several_sample_dims"] = case["ns"] > 1
 
     def bad(check, msg, **extra):
         V.append(viol(check, "EOF" if case["level"] == "model" else "Preprocessor", msg, **feats, **extra))
